@@ -342,6 +342,44 @@ func c25GenPkgs(rt *rapid.T, max int, tagBase uint32) []c25Pkg {
 	return out
 }
 
+// c25GenHeader draws the header part of a block (everything the header hash depends on).
+func c25GenHeader(rt *rapid.T, full bool, slot uint32) c25Block {
+	b := c25Block{
+		Parent: rapid.Uint32().Draw(rt, "parent"), ParentRoot: rapid.Uint32().Draw(rt, "parent_root"),
+		ExtHash: rapid.Uint32().Draw(rt, "ext"), Slot: slot, Author: rapid.Uint16().Draw(rt, "author"),
+		Entropy: rapid.Uint32().Draw(rt, "entropy"), Seal: rapid.Uint32().Draw(rt, "seal"),
+	}
+	if rapid.IntRange(0, 4).Draw(rt, "has_off") == 0 {
+		no := rapid.IntRange(1, 3).Draw(rt, "noff")
+		for j := 0; j < no; j++ {
+			b.Offenders = append(b.Offenders, rapid.Uint32().Draw(rt, "off"))
+		}
+	}
+	if !full {
+		b.EpochMark = rapid.IntRange(0, 5).Draw(rt, "epoch_mark") == 0
+		b.TicketMark = rapid.IntRange(0, 7).Draw(rt, "tickets_mark") == 0
+	}
+	return b
+}
+
+// c25GenBlock: header (fresh, or one of the pool's headers: the header hash then
+// repeats an earlier block's) + guarantees + accumulation outputs.
+func c25GenBlock(rt *rapid.T, full bool, maxPk int, slot uint32, tagBase uint32, pool []c25Block) c25Block {
+	var b c25Block
+	if len(pool) > 0 && rapid.IntRange(0, 2).Draw(rt, "from_pool") == 0 {
+		b = pool[rapid.IntRange(0, len(pool)-1).Draw(rt, "pool_idx")]
+		b.Offenders = append([]uint32(nil), b.Offenders...)
+	} else {
+		b = c25GenHeader(rt, full, slot)
+	}
+	b.Pkgs = c25GenPkgs(rt, maxPk, tagBase)
+	no := rapid.IntRange(0, 5).Draw(rt, "nouts")
+	for j := 0; j < no; j++ {
+		b.Outs = append(b.Outs, c25Out{Service: rapid.OneOf(rapid.Uint32Range(0, 5), rapid.Uint32()).Draw(rt, "svc"), Hash: rapid.Uint32().Draw(rt, "out")})
+	}
+	return b
+}
+
 func c25Gen(rt *rapid.T) c25Input {
 	in := c25Input{}
 	in.Full = rapid.IntRange(0, 3).Draw(rt, "full") != 0
@@ -358,43 +396,372 @@ func c25Gen(rt *rapid.T) c25Input {
 			x, y := e.Pkgs[a].Hash.expand(), e.Pkgs[b].Hash.expand()
 			return bytes.Compare(x[:], y[:]) < 0
 		})
+		if rapid.IntRange(0, 7).Draw(rt, "init_hdr_of_block") == 0 {
+			// the header of one of the first blocks is already recorded (falls back to the tag when the history is shorter)
+			e.HeaderOfBlock = rapid.IntRange(1, 6).Draw(rt, "hob")
+		}
 		in.Init = append(in.Init, e)
 	}
+	in.InitSpare = rapid.SampledFrom([]int{0, 0, 0, 1, 3, 8}).Draw(rt, "init_spare")
 	in.MmrCount = rapid.OneOf(rapid.Just(uint32(0)), rapid.Uint32Range(0, 70), rapid.SampledFrom([]uint32{1, 3, 7, 15, 31, 63, 127, 255, 1<<20 - 1})).Draw(rt, "mmr_count")
 	in.MmrSeed = rapid.Uint32().Draw(rt, "mmr_seed")
 	nb := rapid.OneOf(rapid.IntRange(1, 12), rapid.IntRange(c25H+1, 40)).Draw(rt, "nblocks")
 	slot := rapid.Uint32Range(0, 1<<20).Draw(rt, "slot0")
+	// header pool: 0..3 headers that several blocks of the history may carry (the same
+	// header imported again while its entry is still among the last H, or later)
+	var pool []c25Block
+	npool := rapid.SampledFrom([]int{0, 1, 1, 2, 3}).Draw(rt, "npool")
+	for i := 0; i < npool; i++ {
+		pool = append(pool, c25GenHeader(rt, in.Full, slot+uint32(rapid.IntRange(0, 60).Draw(rt, "pool_slot"))))
+	}
 	for i := 0; i < nb; i++ {
 		slot += uint32(rapid.IntRange(1, 3).Draw(rt, "gap"))
-		b := c25Block{
-			Parent: rapid.Uint32().Draw(rt, "parent"), ParentRoot: rapid.Uint32().Draw(rt, "parent_root"),
-			ExtHash: rapid.Uint32().Draw(rt, "ext"), Slot: slot, Author: rapid.Uint16().Draw(rt, "author"),
-			Entropy: rapid.Uint32().Draw(rt, "entropy"), Seal: rapid.Uint32().Draw(rt, "seal"),
-		}
-		if rapid.IntRange(0, 4).Draw(rt, "has_off") == 0 {
-			no := rapid.IntRange(1, 3).Draw(rt, "noff")
-			for j := 0; j < no; j++ {
-				b.Offenders = append(b.Offenders, rapid.Uint32().Draw(rt, "off"))
+		b := c25GenBlock(rt, in.Full, maxPk, slot, uint32(i)<<17, pool)
+		if rapid.IntRange(0, 3).Draw(rt, "fork") == 0 {
+			sib := c25GenBlock(rt, in.Full, maxPk, slot, uint32(i)<<17, pool)
+			if rapid.Bool().Draw(rt, "same_parent") {
+				// ordinary fork siblings: same parent, hence the same parent state root
+				sib.Parent, sib.ParentRoot = b.Parent, b.ParentRoot
 			}
-		}
-		if !in.Full {
-			b.EpochMark = rapid.IntRange(0, 5).Draw(rt, "epoch_mark") == 0
-			b.TicketMark = rapid.IntRange(0, 7).Draw(rt, "tickets_mark") == 0
-		}
-		b.Pkgs = c25GenPkgs(rt, maxPk, uint32(i)<<17)
-		no := rapid.IntRange(0, 5).Draw(rt, "nouts")
-		for j := 0; j < no; j++ {
-			b.Outs = append(b.Outs, c25Out{Service: rapid.OneOf(rapid.Uint32Range(0, 5), rapid.Uint32()).Draw(rt, "svc"), Hash: rapid.Uint32().Draw(rt, "out")})
+			b.Sibling = &sib
+			b.ContinueSibling = rapid.Bool().Draw(rt, "continue_sibling")
 		}
 		in.Blocks = append(in.Blocks, b)
 	}
 	return in
 }
 
+// ---- one block, expanded -----------------------------------------------------------
+
+type c25Built struct {
+	blk   types.Block
+	theta types.LastAccOut
+	ref   c25RefHeader
+	hh    [32]byte // the model's header hash: Blake2b of the own serialisation
+}
+
+func c25Build(c *kit.Case, full bool, b c25Block) c25Built {
+	hdr := types.Header{
+		Parent: types.HeaderHash(c25H32("P", b.Parent)), ParentStateRoot: types.StateRoot(c25H32("r", b.ParentRoot)),
+		ExtrinsicHash: types.OpaqueHash(c25H32("e", b.ExtHash)), Slot: types.TimeSlot(b.Slot), AuthorIndex: types.ValidatorIndex(b.Author),
+	}
+	ref := c25RefHeader{Parent: c25H32("P", b.Parent), ParentRoot: c25H32("r", b.ParentRoot), Ext: c25H32("e", b.ExtHash), Slot: b.Slot, Author: b.Author}
+	copy(hdr.EntropySource[:], c25Bytes("v", b.Entropy, 96))
+	copy(ref.Entropy[:], c25Bytes("v", b.Entropy, 96))
+	copy(hdr.Seal[:], c25Bytes("S", b.Seal, 96))
+	copy(ref.Seal[:], c25Bytes("S", b.Seal, 96))
+	hdr.OffendersMark = types.OffendersMark{}
+	for _, o := range b.Offenders {
+		hdr.OffendersMark = append(hdr.OffendersMark, types.Ed25519Public(c25H32("o", o)))
+		ref.Offenders = append(ref.Offenders, c25H32("o", o))
+	}
+	if b.EpochMark && !full {
+		em := &types.EpochMark{Entropy: types.Entropy(c25H32("E", b.Seal)), TicketsEntropy: types.Entropy(c25H32("T", b.Seal))}
+		ref.Epoch = append(ref.Epoch, em.Entropy[:]...)
+		ref.Epoch = append(ref.Epoch, em.TicketsEntropy[:]...)
+		for v := 0; v < types.ValidatorsCount; v++ {
+			k := types.EpochMarkValidatorKeys{Bandersnatch: types.BandersnatchPublic(c25H32("B", b.Seal+uint32(v))), Ed25519: types.Ed25519Public(c25H32("D", b.Seal+uint32(v)))}
+			em.Validators = append(em.Validators, k)
+			ref.Epoch = append(ref.Epoch, k.Bandersnatch[:]...)
+			ref.Epoch = append(ref.Epoch, k.Ed25519[:]...)
+		}
+		hdr.EpochMark = em
+		if c != nil {
+			c.Class("header_with_epoch_mark")
+		}
+	}
+	if b.TicketMark && !full {
+		tm := types.TicketsMark{}
+		ref.Tickets = []byte{}
+		for t := 0; t < types.EpochLength; t++ {
+			tb := types.TicketBody{ID: types.TicketID(c25H32("t", b.Seal+uint32(t))), Attempt: types.TicketAttempt(t % 3)}
+			tm = append(tm, tb)
+			ref.Tickets = append(ref.Tickets, tb.ID[:]...)
+			ref.Tickets = append(ref.Tickets, byte(t%3))
+		}
+		hdr.TicketsMark = &tm
+		if c != nil {
+			c.Class("header_with_tickets_mark")
+		}
+	}
+	var eg types.GuaranteesExtrinsic
+	for _, p := range b.Pkgs {
+		eg = append(eg, types.ReportGuarantee{Report: types.WorkReport{PackageSpec: types.WorkPackageSpec{
+			Hash: types.WorkPackageHash(p.Hash.expand()), ExportsRoot: types.ExportsRoot(c25H32("x", p.Exports))}}})
+	}
+	var theta types.LastAccOut
+	for _, o := range b.Outs {
+		theta = append(theta, types.AccumulatedServiceHash{ServiceID: types.ServiceID(o.Service), Hash: types.OpaqueHash(c25H32("O", o.Hash))})
+	}
+	return c25Built{blk: types.Block{Header: hdr, Extrinsic: types.Extrinsic{Guarantees: eg}}, theta: theta, ref: ref,
+		hh: blake2b.Sum256(c25RefEncodeHeader(ref))}
+}
+
+// ---- model step (pure: returns fresh lists, so that two blocks can be applied to one state) ----
+
+type c25MState struct {
+	H []c25MEntry
+	B []c25Peak
+}
+
+type c25StepInfo struct {
+	full, dup bool
+	dagger    []c25MEntry // beta-dagger: the prior entries, newest state root replaced
+}
+
+func c25ModelStep(c *kit.Case, st c25MState, b c25Block, bt c25Built) (c25MState, c25StepInfo) {
+	info := c25StepInfo{full: len(st.H) == c25H}
+	dag := append([]c25MEntry(nil), st.H...)
+	if len(dag) > 0 {
+		dag[len(dag)-1].State = bt.ref.ParentRoot
+	}
+	info.dagger = dag
+	for _, e := range dag {
+		if e.Header == bt.hh {
+			info.dup = true
+		}
+	}
+	var s [][]byte
+	for _, o := range b.Outs {
+		h := c25H32("O", o.Hash)
+		s = append(s, append(binary.LittleEndian.AppendUint32(nil, o.Service), h[:]...))
+	}
+	if len(st.B) >= 2 && st.B[0].Set && st.B[1].Set {
+		c.Class("block_mmr_append_merges_ge2_peaks")
+	}
+	mmr := c25RefAppend(st.B, c25RefMB(s))
+	ne := c25MEntry{Header: bt.hh, Beefy: c25RefSuperPeak(mmr)}
+	for _, p := range b.Pkgs {
+		ne.Pkgs = append(ne.Pkgs, c25MPkg{p.Hash.expand(), c25H32("x", p.Exports)})
+	}
+	sort.Slice(ne.Pkgs, func(i, j int) bool { return bytes.Compare(ne.Pkgs[i].Hash[:], ne.Pkgs[j].Hash[:]) < 0 })
+	sortedAlready := true
+	for i := range ne.Pkgs {
+		if ne.Pkgs[i].Hash != b.Pkgs[i].Hash.expand() {
+			sortedAlready = false
+		}
+	}
+	// an entry is appended for EVERY block (whether or not its header hash is already recorded)
+	next := append(append([]c25MEntry(nil), dag...), ne)
+	if len(next) > c25H {
+		next = next[len(next)-c25H:]
+	}
+
+	// ---- classes
+	if info.full {
+		c.Class("block_on_full_history")
+	} else {
+		c.Class("block_on_growing_history")
+	}
+	if info.dup {
+		if info.full {
+			c.Class("block_header_hash_already_in_full_history")
+		} else {
+			c.Class("block_header_hash_already_in_growing_history")
+		}
+	}
+	if len(b.Pkgs) >= 2 && !sortedAlready {
+		c.Class("block_packages_unsorted_in_extrinsic")
+	}
+	switch len(b.Outs) {
+	case 0:
+		c.Class("block_outputs_0")
+	case 1:
+		c.Class("block_outputs_1")
+	default:
+		c.Class("block_outputs_ge2")
+	}
+	return c25MState{H: next, B: mmr}, info
+}
+
+// ---- deep snapshots of implementation values ---------------------------------------
+
+type c25Snapshot struct {
+	H []types.BlockInfo // Reported copied
+	B []c25Peak
+}
+
+func c25Snap(rb types.RecentBlocks) c25Snapshot {
+	var s c25Snapshot
+	s.H = make([]types.BlockInfo, len(rb.History))
+	for i, e := range rb.History {
+		e.Reported = append([]types.ReportedWorkPackage(nil), e.Reported...)
+		s.H[i] = e
+	}
+	for _, p := range rb.Mmr.Peaks {
+		if p == nil {
+			s.B = append(s.B, c25Peak{})
+		} else {
+			s.B = append(s.B, c25Peak{true, [32]byte(*p)})
+		}
+	}
+	return s
+}
+
+// c25CompareSnap: got (a value the implementation was given or handed out earlier)
+// still equals the deep snapshot taken of it. exemptState >= 0: the state root of
+// that entry is not compared (beta-dagger is allowed to live in beta's storage).
+func c25CompareSnap(c *kit.Case, blk int, what string, got types.RecentBlocks, snap c25Snapshot, exemptState int) {
+	if len(got.History) != len(snap.H) {
+		c.Failf("block %d: %s: history now has %d entries, had %d", blk, what, len(got.History), len(snap.H))
+	}
+	for i, w := range snap.H {
+		g := got.History[i]
+		if g.HeaderHash != w.HeaderHash {
+			c.Failf("block %d: %s: entry %d header hash changed from %x to %x", blk, what, i, w.HeaderHash, g.HeaderHash)
+		}
+		if g.BeefyRoot != w.BeefyRoot {
+			c.Failf("block %d: %s: entry %d accumulation-output commitment changed from %x to %x", blk, what, i, w.BeefyRoot, g.BeefyRoot)
+		}
+		if i != exemptState && g.StateRoot != w.StateRoot {
+			c.Failf("block %d: %s: entry %d state root changed from %x to %x", blk, what, i, w.StateRoot, g.StateRoot)
+		}
+		if len(g.Reported) != len(w.Reported) {
+			c.Failf("block %d: %s: entry %d now has %d reported packages, had %d", blk, what, i, len(g.Reported), len(w.Reported))
+		}
+		for j := range w.Reported {
+			if g.Reported[j] != w.Reported[j] {
+				c.Failf("block %d: %s: entry %d package %d changed from %x to %x", blk, what, i, j, w.Reported[j].Hash, g.Reported[j].Hash)
+			}
+		}
+	}
+	if len(got.Mmr.Peaks) != len(snap.B) {
+		c.Failf("block %d: %s: MMR now has %d peaks, had %d", blk, what, len(got.Mmr.Peaks), len(snap.B))
+	}
+	for i, w := range snap.B {
+		g := got.Mmr.Peaks[i]
+		if (g != nil) != w.Set || (g != nil && [32]byte(*g) != w.H) {
+			c.Failf("block %d: %s: MMR peak %d changed", blk, what, i)
+		}
+	}
+}
+
+// c25ComparePost: a posterior beta against the model, entry by entry, peak by peak.
+func c25ComparePost(c *kit.Case, blk int, tag string, post types.RecentBlocks, m c25MState) {
+	if len(post.History) > c25H {
+		c.Failf("block %d%s: posterior history has %d entries > H", blk, tag, len(post.History))
+	}
+	if len(post.History) != len(m.H) {
+		c.Failf("block %d%s: posterior history has %d entries, model %d", blk, tag, len(post.History), len(m.H))
+	}
+	for i := range m.H {
+		what := "carried"
+		if i == len(m.H)-1 {
+			what = "new"
+		} else if i == len(m.H)-2 {
+			what = "previous-newest"
+		}
+		c25CompareEntry(c, blk, i, post.History[i], m.H[i], what+tag)
+	}
+	if len(post.Mmr.Peaks) != len(m.B) {
+		c.Failf("block %d%s: posterior MMR has %d peaks, model %d", blk, tag, len(post.Mmr.Peaks), len(m.B))
+	}
+	for i, p := range m.B {
+		g := post.Mmr.Peaks[i]
+		if (g != nil) != p.Set || (g != nil && [32]byte(*g) != p.H) {
+			c.Failf("block %d%s: posterior MMR peak %d differs from model", blk, tag, i)
+		}
+	}
+}
+
+// ---- the two paths through the code under test ---------------------------------------
+
+// A path applies one block to "the current prior state" (which it holds itself and
+// never copies) and hands out beta-dagger and the posterior beta exactly as the
+// implementation produced them.
+type c25Path interface {
+	prime(prior types.RecentBlocks) // start of a case
+	prior() types.RecentBlocks      // the prior state as it is held now
+	apply(bt c25Built) (types.BlocksHistory, types.RecentBlocks, error)
+	commit(post types.RecentBlocks) // posterior becomes prior (shallow, as ChainState.StateCommit does)
+}
+
+// store level: the sequence stf.RunSTF uses around this package
+// (4.6 ... accumulation sets theta' ... 4.7) on the blockchain singleton.
+type c25StorePath struct{ cs *blockchain.ChainState }
+
+func (p *c25StorePath) prime(prior types.RecentBlocks) {
+	blockchain.ResetInstance()
+	p.cs = blockchain.GetInstance()
+	p.cs.GetPriorStates().SetBeta(prior)
+}
+func (p *c25StorePath) prior() types.RecentBlocks { return p.cs.GetPriorStates().GetBeta() }
+func (p *c25StorePath) apply(bt c25Built) (types.BlocksHistory, types.RecentBlocks, error) {
+	p.cs.AddBlock(bt.blk)
+	STFBetaH2BetaHDagger()
+	dag := p.cs.GetIntermediateStates().GetBetaHDagger()
+	p.cs.GetPosteriorStates().SetLastAccOut(bt.theta)
+	if err := STFBetaHDagger2BetaHPrime(); err != nil {
+		return dag, types.RecentBlocks{}, err
+	}
+	post := p.cs.GetPosteriorStates().GetBeta()
+	// fresh posterior state for the next block (the prior state is left as it is)
+	p.cs.GetPosteriorStates().SetState(blockchain.NewPosteriorStates().GetState())
+	return dag, post, nil
+}
+func (p *c25StorePath) commit(post types.RecentBlocks) { p.cs.GetPriorStates().SetBeta(post) }
+
+// function level: the package's functions composed the way STFBetaH2BetaHDagger +
+// STFBetaHDagger2BetaHPrime compose them; the header hash handed to NewItem is the
+// model's (computing it is not this package's business).
+type c25FuncPath struct{ cur types.RecentBlocks }
+
+func (p *c25FuncPath) prime(prior types.RecentBlocks) { p.cur = prior }
+func (p *c25FuncPath) prior() types.RecentBlocks      { return p.cur }
+func (p *c25FuncPath) apply(bt c25Built) (types.BlocksHistory, types.RecentBlocks, error) {
+	dag := History2HistoryDagger(p.cur.History, bt.blk.Header.ParentStateRoot)
+	ser, err := serLastAccOut(bt.theta)
+	if err != nil {
+		return dag, types.RecentBlocks{}, err
+	}
+	belt, commitment := AppendAndCommitMmr(p.cur.Mmr, lastAccOutRoot(ser))
+	item := NewItem(types.HeaderHash(bt.hh), MapWorkReportFromEg(bt.blk.Extrinsic.Guarantees), commitment)
+	return dag, types.RecentBlocks{History: AddItem2BetaHPrime(dag, item), Mmr: belt}, nil
+}
+func (p *c25FuncPath) commit(post types.RecentBlocks) { p.cur = post }
+
 // ---- check ------------------------------------------------------------------------
 
-func c25Check(c *kit.Case, in c25Input) {
-	if len(in.Init) > c25H || len(in.Blocks) == 0 || len(in.Blocks) > 200 {
+func c25BlockInDomain(b c25Block) bool {
+	if len(b.Pkgs) > types.CoresCount || len(b.Offenders) > 100 {
+		return false
+	}
+	seen := map[[32]byte]bool{}
+	for _, p := range b.Pkgs {
+		h := p.Hash.expand()
+		if seen[h] {
+			return false // duplicate package hash inside one block: outside the domain
+		}
+		seen[h] = true
+	}
+	return true
+}
+
+// c25ApplyAndCompare: one block through the path, beta-dagger and posterior beta compared with the model.
+func c25ApplyAndCompare(c *kit.Case, path c25Path, bi int, tag string, bt c25Built, next c25MState, info c25StepInfo) types.RecentBlocks {
+	dag, post, err := path.apply(bt)
+	if len(dag) != len(info.dagger) {
+		c.Failf("block %d%s: beta-dagger has %d entries, model %d", bi, tag, len(dag), len(info.dagger))
+	}
+	if len(dag) > 0 && [32]byte(dag[len(dag)-1].StateRoot) != bt.ref.ParentRoot {
+		c.Failf("block %d%s: beta-dagger newest state root %x, parent state root %x", bi, tag, dag[len(dag)-1].StateRoot, bt.ref.ParentRoot)
+	}
+	for i := range info.dagger {
+		c25CompareEntry(c, bi, i, dag[i], info.dagger[i], "beta-dagger"+tag)
+	}
+	if err != nil {
+		c.Failf("block %d%s: transition returned an error: %v", bi, tag, err)
+	}
+	c25ComparePost(c, bi, tag, post, next)
+	return post
+}
+
+func c25CheckOn(path c25Path) func(c *kit.Case, in c25Input) {
+	return func(c *kit.Case, in c25Input) { c25Check(c, in, path) }
+}
+
+func c25Check(c *kit.Case, in c25Input, path c25Path) {
+	if len(in.Init) > c25H || len(in.Blocks) == 0 || len(in.Blocks) > 200 || in.InitSpare < 0 || in.InitSpare > 64 {
 		return // malformed replay
 	}
 	if in.Full {
@@ -403,41 +770,33 @@ func c25Check(c *kit.Case, in c25Input) {
 		types.SetTinyMode()
 	}
 	for _, b := range in.Blocks {
-		if len(b.Pkgs) > types.CoresCount || len(b.Offenders) > 100 {
+		if !c25BlockInDomain(b) || (b.Sibling != nil && !c25BlockInDomain(*b.Sibling)) {
 			return
 		}
-		seen := map[[32]byte]bool{}
-		for _, p := range b.Pkgs {
-			h := p.Hash.expand()
-			if seen[h] {
-				return // duplicate package hash inside one block: outside the domain
-			}
-			seen[h] = true
-		}
 	}
 
-	// ---- prime the singleton from scratch
-	blockchain.ResetInstance()
-	cs := blockchain.GetInstance()
-
-	var model []c25MEntry
+	// ---- prior state: model and implementation value
+	var st c25MState
 	for _, e := range in.Init {
-		model = append(model, c25EntryFromInit(e))
+		m := c25EntryFromInit(e)
+		if e.HeaderOfBlock > 0 && e.HeaderOfBlock <= len(in.Blocks) {
+			m.Header = c25Build(nil, in.Full, in.Blocks[e.HeaderOfBlock-1]).hh
+		}
+		st.H = append(st.H, m)
 	}
 	// prior MMR: the peaks an MMR has after MmrCount appends (peak i present iff bit i set)
-	var mmr []c25Peak
 	for i := 0; i < 32 && in.MmrCount>>uint(i) != 0; i++ {
 		if in.MmrCount>>uint(i)&1 == 1 {
-			mmr = append(mmr, c25Peak{true, c25H32("m", in.MmrSeed+uint32(i))})
+			st.B = append(st.B, c25Peak{true, c25H32("m", in.MmrSeed+uint32(i))})
 		} else {
-			mmr = append(mmr, c25Peak{})
+			st.B = append(st.B, c25Peak{})
 		}
 	}
-	prior := types.RecentBlocks{History: types.BlocksHistory{}}
-	for _, m := range model {
+	prior := types.RecentBlocks{History: make(types.BlocksHistory, 0, len(st.H)+in.InitSpare)}
+	for _, m := range st.H {
 		prior.History = append(prior.History, c25ToBlockInfo(m))
 	}
-	for _, p := range mmr {
+	for _, p := range st.B {
 		if p.Set {
 			h := types.OpaqueHash(p.H)
 			prior.Mmr.Peaks = append(prior.Mmr.Peaks, &h)
@@ -445,158 +804,75 @@ func c25Check(c *kit.Case, in c25Input) {
 			prior.Mmr.Peaks = append(prior.Mmr.Peaks, nil)
 		}
 	}
-	cs.GetPriorStates().SetBeta(prior)
+	path.prime(prior)
+
+	// posterior states that were handed out at a fork step and then left behind: they are
+	// values somebody holds (the other fork's state), so they are looked at again at the end
+	type kept struct {
+		at   int
+		val  types.RecentBlocks
+		snap c25Snapshot
+	}
+	var left []kept
 
 	nontrivial := false
 	for bi, b := range in.Blocks {
-		// ---- build the block
-		hdr := types.Header{
-			Parent: types.HeaderHash(c25H32("P", b.Parent)), ParentStateRoot: types.StateRoot(c25H32("r", b.ParentRoot)),
-			ExtrinsicHash: types.OpaqueHash(c25H32("e", b.ExtHash)), Slot: types.TimeSlot(b.Slot), AuthorIndex: types.ValidatorIndex(b.Author),
-		}
-		ref := c25RefHeader{Parent: c25H32("P", b.Parent), ParentRoot: c25H32("r", b.ParentRoot), Ext: c25H32("e", b.ExtHash), Slot: b.Slot, Author: b.Author}
-		copy(hdr.EntropySource[:], c25Bytes("v", b.Entropy, 96))
-		copy(ref.Entropy[:], c25Bytes("v", b.Entropy, 96))
-		copy(hdr.Seal[:], c25Bytes("S", b.Seal, 96))
-		copy(ref.Seal[:], c25Bytes("S", b.Seal, 96))
-		hdr.OffendersMark = types.OffendersMark{}
-		for _, o := range b.Offenders {
-			hdr.OffendersMark = append(hdr.OffendersMark, types.Ed25519Public(c25H32("o", o)))
-			ref.Offenders = append(ref.Offenders, c25H32("o", o))
-		}
-		if b.EpochMark && !in.Full {
-			em := &types.EpochMark{Entropy: types.Entropy(c25H32("E", b.Seal)), TicketsEntropy: types.Entropy(c25H32("T", b.Seal))}
-			ref.Epoch = append(ref.Epoch, em.Entropy[:]...)
-			ref.Epoch = append(ref.Epoch, em.TicketsEntropy[:]...)
-			for v := 0; v < types.ValidatorsCount; v++ {
-				k := types.EpochMarkValidatorKeys{Bandersnatch: types.BandersnatchPublic(c25H32("B", b.Seal+uint32(v))), Ed25519: types.Ed25519Public(c25H32("D", b.Seal+uint32(v)))}
-				em.Validators = append(em.Validators, k)
-				ref.Epoch = append(ref.Epoch, k.Bandersnatch[:]...)
-				ref.Epoch = append(ref.Epoch, k.Ed25519[:]...)
-			}
-			hdr.EpochMark = em
-			c.Class("header_with_epoch_mark")
-		}
-		if b.TicketMark && !in.Full {
-			tm := types.TicketsMark{}
-			ref.Tickets = []byte{}
-			for t := 0; t < types.EpochLength; t++ {
-				tb := types.TicketBody{ID: types.TicketID(c25H32("t", b.Seal+uint32(t))), Attempt: types.TicketAttempt(t % 3)}
-				tm = append(tm, tb)
-				ref.Tickets = append(ref.Tickets, tb.ID[:]...)
-				ref.Tickets = append(ref.Tickets, byte(t%3))
-			}
-			hdr.TicketsMark = &tm
-			c.Class("header_with_tickets_mark")
-		}
-		var eg types.GuaranteesExtrinsic
-		for _, p := range b.Pkgs {
-			eg = append(eg, types.ReportGuarantee{Report: types.WorkReport{PackageSpec: types.WorkPackageSpec{
-				Hash: types.WorkPackageHash(p.Hash.expand()), ExportsRoot: types.ExportsRoot(c25H32("x", p.Exports))}}})
-		}
-		var theta types.LastAccOut
-		for _, o := range b.Outs {
-			theta = append(theta, types.AccumulatedServiceHash{ServiceID: types.ServiceID(o.Service), Hash: types.OpaqueHash(c25H32("O", o.Hash))})
+		cur := path.prior() // the prior state object both siblings of a fork step are applied to
+		snapPrior := c25Snap(cur)
+		if cap(cur.History) > len(cur.History) {
+			c.Class("step_prior_history_has_spare_capacity")
 		}
 
-		// ---- model step
-		full := len(model) == c25H
-		if len(model) > 0 {
-			model[len(model)-1].State = ref.ParentRoot
+		bt1 := c25Build(c, in.Full, b)
+		m1, i1 := c25ModelStep(c, st, b, bt1)
+		if len(b.Pkgs) >= 2 && i1.full {
+			nontrivial = true // non-trivial rule: history already full and >= 2 packages
 		}
-		var s [][]byte
-		for _, o := range b.Outs {
-			h := c25H32("O", o.Hash)
-			s = append(s, append(binary.LittleEndian.AppendUint32(nil, o.Service), h[:]...))
-		}
-		if len(mmr) >= 2 && mmr[0].Set && mmr[1].Set {
-			c.Class("block_mmr_append_merges_ge2_peaks")
-		}
-		mmr = c25RefAppend(mmr, c25RefMB(s))
-		ne := c25MEntry{Header: blake2b.Sum256(c25RefEncodeHeader(ref)), Beefy: c25RefSuperPeak(mmr)}
-		for _, p := range b.Pkgs {
-			ne.Pkgs = append(ne.Pkgs, c25MPkg{p.Hash.expand(), c25H32("x", p.Exports)})
-		}
-		sort.Slice(ne.Pkgs, func(i, j int) bool { return bytes.Compare(ne.Pkgs[i].Hash[:], ne.Pkgs[j].Hash[:]) < 0 })
-		sortedAlready := true
-		for i := range ne.Pkgs {
-			if ne.Pkgs[i].Hash != b.Pkgs[i].Hash.expand() {
-				sortedAlready = false
-			}
-		}
-		model = append(model, ne)
-		if len(model) > c25H {
-			model = model[len(model)-c25H:]
-		}
+		p1 := c25ApplyAndCompare(c, path, bi, "", bt1, m1, i1)
+		chosen, chosenM := p1, m1
 
-		// ---- classes / non-trivial rule: history already full and >= 2 packages
-		if full {
-			c.Class("block_on_full_history")
-		} else {
-			c.Class("block_on_growing_history")
-		}
-		if len(b.Pkgs) >= 2 && !sortedAlready {
-			c.Class("block_packages_unsorted_in_extrinsic")
-		}
-		if len(b.Pkgs) >= 2 && full {
-			nontrivial = true
-		}
-		switch len(b.Outs) {
-		case 0:
-			c.Class("block_outputs_0")
-		case 1:
-			c.Class("block_outputs_1")
-		default:
-			c.Class("block_outputs_ge2")
-		}
-
-		// ---- implementation step (the sequence RunSTF uses: 4.6 ... accumulation sets theta' ... 4.7)
-		cs.AddBlock(types.Block{Header: hdr, Extrinsic: types.Extrinsic{Guarantees: eg}})
-		STFBetaH2BetaHDagger()
-		dag := cs.GetIntermediateStates().GetBetaHDagger()
-		wantDagLen := len(model) - 1
-		if full {
-			wantDagLen = c25H
-		}
-		if len(dag) != wantDagLen {
-			c.Failf("block %d: beta-dagger has %d entries, model %d", bi, len(dag), wantDagLen)
-		}
-		if len(dag) > 0 && [32]byte(dag[len(dag)-1].StateRoot) != ref.ParentRoot {
-			c.Failf("block %d: beta-dagger newest state root %x, parent state root %x", bi, dag[len(dag)-1].StateRoot, ref.ParentRoot)
-		}
-		cs.GetPosteriorStates().SetLastAccOut(theta)
-		if err := STFBetaHDagger2BetaHPrime(); err != nil {
-			c.Failf("block %d: STFBetaHDagger2BetaHPrime error: %v", bi, err)
-		}
-		post := cs.GetPosteriorStates().GetBeta()
-		if len(post.History) > c25H {
-			c.Failf("block %d: posterior history has %d entries > H", bi, len(post.History))
-		}
-		if len(post.History) != len(model) {
-			c.Failf("block %d: posterior history has %d entries, model %d", bi, len(post.History), len(model))
-		}
-		for i := range model {
-			what := "carried"
-			if i == len(model)-1 {
-				what = "new"
-			} else if i == len(model)-2 {
-				what = "previous-newest"
+		if b.Sibling != nil {
+			// ---- fork step: a different block on the SAME prior state (no copy in between)
+			sb := *b.Sibling
+			c.Class("step_fork")
+			if i1.full {
+				c.Class("step_fork_on_full_history")
 			}
-			c25CompareEntry(c, bi, i, post.History[i], model[i], what)
-		}
-		if len(post.Mmr.Peaks) != len(mmr) {
-			c.Failf("block %d: posterior MMR has %d peaks, model %d", bi, len(post.Mmr.Peaks), len(mmr))
-		}
-		for i, p := range mmr {
-			g := post.Mmr.Peaks[i]
-			if (g != nil) != p.Set || (g != nil && [32]byte(*g) != p.H) {
-				c.Failf("block %d: posterior MMR peak %d differs from model", bi, i)
+			snapP1 := c25Snap(p1)
+			bt2 := c25Build(c, in.Full, sb)
+			m2, i2 := c25ModelStep(c, st, sb, bt2)
+			if len(sb.Pkgs) >= 2 && i2.full {
+				nontrivial = true
+			}
+			p2 := c25ApplyAndCompare(c, path, bi, " (sibling)", bt2, m2, i2)
+			// the first block's posterior state, inspected again
+			c25CompareSnap(c, bi, "posterior state of the first block after a sibling block was applied to the same prior state", p1, snapP1, -1)
+			c25ComparePost(c, bi, " (first block, re-inspected after its sibling)", p1, m1)
+			if b.ContinueSibling {
+				c.Class("step_fork_continues_from_second")
+				chosen, chosenM = p2, m2
+				left = append(left, kept{bi, p1, snapP1})
+			} else {
+				c.Class("step_fork_continues_from_first")
+				left = append(left, kept{bi, p2, c25Snap(p2)})
 			}
 		}
 
-		// ---- commit as ChainState.StateCommit does (posterior becomes prior, posterior reset)
-		cs.GetPriorStates().SetBeta(post)
-		cs.GetPosteriorStates().SetState(blockchain.NewPosteriorStates().GetState())
+		// the caller's prior list: same entries as before the call(s); only the newest
+		// entry's state root may have been replaced (beta-dagger shares beta's storage
+		// in this implementation: History2HistoryDagger)
+		after := path.prior()
+		if n := len(snapPrior.H); n > 0 && len(after.History) == n && after.History[n-1].StateRoot != snapPrior.H[n-1].StateRoot {
+			c.Class("step_prior_newest_state_root_replaced_in_place")
+		}
+		c25CompareSnap(c, bi, "prior state after the transition", after, snapPrior, len(snapPrior.H)-1)
+
+		// ---- commit as ChainState.StateCommit does (posterior becomes prior: the implementation's own slices)
+		path.commit(chosen)
+		st = chosenM
+	}
+	for _, k := range left {
+		c25CompareSnap(c, k.at, "posterior state left behind at this fork step, at the end of the history", k.val, k.snap, -1)
 	}
 	if nontrivial {
 		c.NonTrivial()
@@ -611,5 +887,6 @@ func TestVerif_C25(t *testing.T) {
 		t.Fatalf("package constant H = %d, harness assumes %d", maxBlocksHistory, c25H)
 	}
 	defer types.SetTinyMode()
-	kit.Run(s, "history_vs_model", kit.N{Quick: 4000, Thorough: 60000}, c25Gen, c25Check)
+	kit.Run(s, "history_vs_model", kit.N{Quick: 4000, Thorough: 60000}, c25Gen, c25CheckOn(&c25StorePath{}))
+	kit.Run(s, "history_vs_model_functions", kit.N{Quick: 4000, Thorough: 60000}, c25Gen, c25CheckOn(&c25FuncPath{}))
 }
